@@ -21,6 +21,14 @@ CLAIMED['C08'] = dict(
     note='Trusted: num-bigint/num-rational implement Z/Q; a finite double is modelled as an arbitrary real (sound over-approximation for the exact float operations on these paths). '
          'Bound: lists of length <= 2 (quick) / <= 3 (thorough). Outside: complex under <, std sort_by, string/bytes order.',
     design='§7 C08', technique='symbolic execution of rustc MIR + SMT (z3) over Int/Real with an abstract float domain')
+CLAIMED['C09'] = dict(
+    text='Bounded symbolic model checking of the real MIR of the hand-written key equality (total_eq_of_keys, total_eq_of_key_seqs) and key hashing (total_hash_of_key, '
+         'NNum::total_hash, consistent_hash_f64, NInt::hash) with the Hasher replaced by a write-trace recorder: for EVERY pair of keys built from numbers of every level and '
+         'representation (bare, in lists/vectors of length <= 2, nested one level) key equality is exactly mathematical equality (NaN = NaN) and equal keys write identical '
+         'hash traces; check_if_valid_key accepts exactly the hashable kinds.',
+    note='Trusted: SipHash / std HashMap (equal write traces => same bucket, Eq decides within it); num crates implement Z/Q; abstract doubles. '
+         'Outside: dict-valued keys, string/bytes keys, the dictionary builtins beyond their use of ObjKey Eq/Hash.',
+    design='§7 C09', technique='symbolic execution of rustc MIR + SMT (z3); hasher as trace recorder')
 NOT_APPLICABLE = {
  'C13': 'sequence library vs executable specification: the deciding content is std collections glued by one-line closures over whole sequences; not encodable as a bounded solver query over noulith code (DESIGN §9); parts decided under C08/C09/C10/C11/C14',
  'C17': 'freeze: semantic equivalence of two recursive traversals over programs; a bounded solver query cannot carry it (DESIGN §9)',
